@@ -327,6 +327,60 @@ theorem listOffsets_gen_shape : ∃ o, specOf "listOffsets" = some o ∧
     (∀ t, o.post.eval t = fun _ => none) :=
   ⟨_, rfl, rfl, by decide, by decide, fun _ => rfl⟩
 
+/-! ### the read lock is released on every exit path (regenerated facts), a leaked lock blocks forever -/
+
+theorem lock_facts_hold : Gen.ConnLegacy.lockFacts.all = true := by decide
+
+/-- with the regenerated lock facts, whatever the exchange does (peek error, ErrNoProgress, body read with any result,
+request not even sent), the read lock is free afterwards; and the exchange itself is `connDo` -/
+theorem lock_released_on_every_path (lf : LockFacts) (h : lf.all = true) (inflight : Bool) (o : OpSpec) (v : Nat)
+    (topic : Bytes) (c : Conn) :
+    (connDoL lf inflight o v topic (c, false)).2.2 = false ∧
+    (inflight = false → (connDoL lf inflight o v topic (c, false)).1 = (connDo o v topic c).1 ∧
+                        (connDoL lf inflight o v topic (c, false)).2.1 = (connDo o v topic c).2) := by
+  have hh : lf.peekErr = true ∧ lf.noProgress = true ∧ lf.yield = true ∧ lf.take = true ∧ lf.doBody = true ∧
+      lf.apiVersions = true ∧ lf.batchHandover = true ∧ lf.batchClose = true := by
+    simpa [LockFacts.all, and_assoc] using h
+  obtain ⟨h1, h2, _, h4, h5, h6, _, _⟩ := hh
+  have hrel : ∀ p, released lf o.closeOnErr p = true := by
+    intro p; cases p <;> simp [released, h1, h2, h4, h5, h6]
+  refine ⟨by simp [connDoL, hrel], ?_⟩
+  intro hi
+  subst hi
+  simp [connDoL]
+
+theorem lock_released_fetch (lf : LockFacts) (h : lf.all = true) (fixed : Bool) (v : Nat) (off : Int) (b : Body) (c : Conn) :
+    (connFetchL lf fixed v off b (c, false)).2.2 = false := by
+  have hh : lf.peekErr = true ∧ lf.noProgress = true ∧ lf.yield = true ∧ lf.take = true ∧ lf.doBody = true ∧
+      lf.apiVersions = true ∧ lf.batchHandover = true ∧ lf.batchClose = true := by
+    simpa [LockFacts.all, and_assoc] using h
+  obtain ⟨h1, h2, _, h4, h5, _, h7, h8⟩ := hh
+  unfold connFetchL
+  simp only [Bool.false_and, Bool.false_eq_true, ↓reduceIte, Bool.false_or, Bool.not_eq_eq_eq_not, Bool.not_false]
+  cases exitPath false c <;> simp [released, h1, h2, h4, h5, h7, h8]
+
+/-- once the lock is leaked, every operation whose request goes out blocks — result and state never change again -/
+theorem leaked_lock_blocks (lf : LockFacts) (inflight : Bool) (o : OpSpec) (v : Nat) (topic : Bytes) (c : Conn)
+    (hsent : exitPath inflight c ≠ .notSent) :
+    connDoL lf inflight o v topic (c, true) = (blocked, (c, true)) := by
+  simp [connDoL, hsent]
+
+/-- the two seeded shapes this guards against, as concrete runs of the model:
+(1) waitResponse without the unlock on the peek-error exit: two requests in flight, the response stream ends after 3
+bytes — the first caller fails and leaks the lock, the second blocks forever;
+(2) Batch.close that does not unlock: fetch answered with an error code, Close, then any operation blocks. -/
+theorem leaked_lock_counterexamples :
+    (let lf := { Gen.ConnLegacy.lockFacts with peekErr := false }
+     let hb := simpleOp "heartbeat" Gen.ConnLegacy.heartbeatResponseV0
+     let r1 := connDoL lf true hb 0 [116] (⟨[0, 0, 0], 1, false⟩, false)
+     let r2 := connDoL lf true hb 0 [116] r1.2
+     r1.1.isFail = true ∧ r1.2.2 = true ∧ r2.1 = blocked) ∧
+    (let lf := { Gen.ConnLegacy.lockFacts with batchClose := false }
+     let hb := simpleOp "heartbeat" Gen.ConnLegacy.heartbeatResponseV0
+     let r1 := connFetchL lf true 10 0 idealBody (⟨[0,0,0,18, 0,0,0,1] ++ fetchErrV10 ++ d2Next, 1, false⟩, false)
+     let r2 := connDoL lf false hb 0 [116] r1.2
+     r1.1 = .kafka 6 ∧ r1.2.2 = true ∧ r2.1 = blocked) := by decide
+
 /-! ### ApiVersions -/
 
 def encEntries : List (Bytes × Bytes × Bytes) → Bytes
